@@ -211,7 +211,7 @@ theorem specPoll_step (fixed : Bool) (id : Ideal Text) (st : RState Text) (fv : 
     let r := poll parse fixed st fv
     (specPoll parse id fv (obsOf r.2 r.1)).1 = none ∧ Linked (specPoll parse id fv (obsOf r.2 r.1)).2 r.1 := by
   rcases st with ⟨modified, source, active, rate, alive⟩
-  rcases id with ⟨remM, remText, prevText, ⟨pact, pactive, prate, palive⟩⟩
+  rcases id with ⟨remM, remText, ⟨pact, pactive, prate, palive⟩⟩
   obtain ⟨h1, h2, h3, h4⟩ := hl
   simp only at h1 h2 h3 h4
   subst h1 h2 h3
@@ -224,15 +224,15 @@ theorem specPoll_step (fixed : Bool) (id : Ideal Text) (st : RState Text) (fv : 
     obtain ⟨rfl, rfl⟩ := h4 rfl
     cases fv with
     | missing =>
-      cases remM <;> simp [poll, runOnce, readAndApply, specPoll, obsOf, Linked, untouched, FileView.mtime?, FileView.text?]
+      cases remM <;> simp [poll, runOnce, readAndApply, specPoll, obsOf, Linked, untouched, appliedAs, FileView.mtime?, FileView.text?]
     | unreadable m =>
       cases remM with
-      | none => simp [poll, runOnce, readAndApply, specPoll, obsOf, Linked, untouched, FileView.mtime?, FileView.text?]
+      | none => simp [poll, runOnce, readAndApply, specPoll, obsOf, Linked, untouched, appliedAs, FileView.mtime?, FileView.text?]
       | some l =>
         by_cases hlm : l = m
-        · simp [poll, runOnce, readAndApply, specPoll, obsOf, Linked, untouched, FileView.mtime?, FileView.text?, hlm]
+        · simp [poll, runOnce, readAndApply, specPoll, obsOf, Linked, untouched, appliedAs, FileView.mtime?, FileView.text?, hlm]
         · rcases hs with rfl | hs | hs
-          · simp [poll, runOnce, readAndApply, specPoll, obsOf, Linked, untouched, FileView.mtime?, FileView.text?, hlm]
+          · simp [poll, runOnce, readAndApply, specPoll, obsOf, Linked, untouched, appliedAs, FileView.mtime?, FileView.text?, hlm]
           · simp at hs
           · exact absurd rfl (hs m)
     | ok m t =>
@@ -245,17 +245,17 @@ theorem specPoll_step (fixed : Bool) (id : Ideal Text) (st : RState Text) (fv : 
         cases remM with
         | none =>
           rcases hparse with hp | ⟨c, r, hp⟩ <;> (try cases r) <;>
-            simp [poll, runOnce, readAndApply, specPoll, obsOf, Linked, untouched, FileView.mtime?, FileView.text?, hp]
+            simp [poll, runOnce, readAndApply, specPoll, obsOf, Linked, untouched, appliedAs, FileView.mtime?, FileView.text?, hp]
         | some l =>
           by_cases hlm : l = m <;> rcases hparse with hp | ⟨c, r, hp⟩ <;> (try cases r) <;> cases fixed <;>
-            simp [poll, runOnce, readAndApply, specPoll, obsOf, Linked, untouched, FileView.mtime?, FileView.text?, hp, hlm]
+            simp [poll, runOnce, readAndApply, specPoll, obsOf, Linked, untouched, appliedAs, FileView.mtime?, FileView.text?, hp, hlm]
       · cases remM with
         | none =>
           rcases hparse with hp | ⟨c, r, hp⟩ <;> (try cases r) <;>
-            simp [poll, runOnce, readAndApply, specPoll, obsOf, Linked, untouched, FileView.mtime?, FileView.text?, hts, hp]
+            simp [poll, runOnce, readAndApply, specPoll, obsOf, Linked, untouched, appliedAs, FileView.mtime?, FileView.text?, hts, hp]
         | some l =>
           by_cases hlm : l = m <;> rcases hparse with hp | ⟨c, r, hp⟩ <;> (try cases r) <;> cases fixed <;>
-            simp [poll, runOnce, readAndApply, specPoll, obsOf, Linked, untouched, FileView.mtime?, FileView.text?, hts, hp, hlm]
+            simp [poll, runOnce, readAndApply, specPoll, obsOf, Linked, untouched, appliedAs, FileView.mtime?, FileView.text?, hts, hp, hlm]
 
 /-- the model's observation of a history, paired with the file views (what the driver hands to the Spec) -/
 def modelPolls (fixed : Bool) : RState Text → List (FileView Text) → List (FileView Text × PollObs)
@@ -323,7 +323,7 @@ theorem specHistory_model (fixed : Bool) (m0 : Option Mtime) (text0 : Text) (st0
     subst hinit
     have hspec := specPolls_model parse fixed h
       { modified := m0, source := text0, active := c, rate := r.getD 0, alive := r.isSome }
-      { remM := m0, remText := text0, prevText := some text0,
+      { remM := m0, remText := text0,
         prev := obsOf a { modified := m0, source := text0, active := c, rate := r.getD 0, alive := r.isSome } }
       1 (by simp [Linked, obsOf]) hs
     cases r <;> simp [obsOf] at hspec ⊢ <;> exact hspec
@@ -494,6 +494,180 @@ theorem threadRun_fast (hf : FastRates parse) (fixed : Bool) (views : List (File
     rw [ih _ fv (poll_rate_fast parse hf fixed st fv h)]
     rfl
 
+end
+
+section
+variable {Text : Type} [DecidableEq Text] (parse : Text → Option (ConfigTag × Option Rate))
+
+/-! ### histories with rate removal, the thread without rate assumptions, the two-look initialisation -/
+
+/-- `lastGood` for the loop of `run`: once a text without a refresh rate has been applied the loop
+has ended and later texts are not even looked at -/
+def lastGoodRun : (ConfigTag × Rate × Bool) → List Text → (ConfigTag × Rate × Bool)
+  | acc, [] => acc
+  | acc, t :: ts =>
+    if acc.2.2 then
+      match parse t with
+      | none => lastGoodRun acc ts
+      | some (c, r) => lastGoodRun (c, r.getD acc.2.1, r.isSome) ts
+    else acc
+
+theorem lastGoodRun_dead (a : ConfigTag) (r : Rate) (ts : List Text) :
+    lastGoodRun parse (a, r, false) ts = (a, r, false) := by
+  cases ts <;> simp [lastGoodRun]
+
+/-- the loop of `run` over any history, rate removal included -/
+theorem runAll_lastGoodRun (fixed : Bool) (h : List (FileView Text)) :
+    ∀ (st : RState Text),
+      let r := runAll parse fixed st h
+      (r.active, r.rate, r.alive) =
+        lastGoodRun parse (st.active, st.rate, st.alive) (changes st.source (reads fixed st.modified h)) := by
+  induction h with
+  | nil => intro st; simp [runAll, reads, changes, lastGoodRun]
+  | cons fv rest ih =>
+    intro st
+    simp only
+    rw [runAll_cons]
+    by_cases ha : st.alive = true
+    · have hpoll : (poll parse fixed st fv).1 = (runOnce parse fixed st fv).1 := by simp [poll, ha]
+      rw [hpoll]
+      have hst1 := runOnce_fst parse fixed st fv
+      have ih1 := ih (runOnce parse fixed st fv).1
+      simp only at ih1
+      rw [ih1]
+      simp only [reads]
+      cases hr : readsOne st.modified fv with
+      | none =>
+        rw [hr] at hst1
+        simp only [Option.toList_none, List.nil_append]
+        rw [hst1]
+      | some t =>
+        rw [hr] at hst1
+        simp only [Option.toList_some, List.cons_append, List.nil_append, changes]
+        have hmod : (runOnce parse fixed st fv).1.modified = nextModified fixed st.modified fv := by
+          rw [hst1, applyText_modified]
+        by_cases hts : t = st.source
+        · have : (runOnce parse fixed st fv).1 = { st with modified := nextModified fixed st.modified fv } := by
+            rw [hst1]; simp [applyText, hts]
+          simp only [hts, if_true]
+          rw [this]
+        · simp only [hts, if_false]
+          have hsrc : (runOnce parse fixed st fv).1.source = t := by
+            rw [hst1]; unfold applyText; simp only [hts, if_false]
+            cases parse t with
+            | none => rfl
+            | some p => rfl
+          rw [hsrc, hmod]
+          simp only [lastGoodRun, ha, if_true]
+          rw [hst1]
+          unfold applyText
+          simp only [hts, if_false]
+          cases hp : parse t with
+          | none => simp [ha]
+          | some p => obtain ⟨c, r⟩ := p; simp [ha]
+    · have hd : st.alive = false := by simpa using ha
+      have hpoll : (poll parse fixed st fv).1 = st := by simp [poll, hd]
+      rw [hpoll, runAll_dead parse fixed rest st hd, hd, lastGoodRun_dead]
+
+/-! the thread, without any assumption on the rates -/
+
+/-- the file views the loop actually polls, as the model's own rates decide -/
+def polledViews (fixed : Bool) : RState Text → FileView Text → List (TStep Text) → List (FileView Text)
+  | _, _, [] => []
+  | st, cur, step :: rest =>
+    let (view, polled) : FileView Text × Bool := match step with
+      | .edit fv => (fv, decide (st.rate < slowRate))
+      | .longWait => (cur, true)
+    if polled then view :: polledViews fixed (poll parse fixed st view).1 view rest
+    else polledViews fixed st view rest
+
+theorem threadRun_polled (fixed : Bool) (steps : List (TStep Text)) :
+    ∀ (st : RState Text) (cur : FileView Text),
+      (threadRun parse fixed st cur steps).filter (·.polled) =
+        (pollAll parse fixed st (polledViews parse fixed st cur steps)).map tobsOf ∧
+      ∀ o ∈ threadRun parse fixed st cur steps, o.polled = false → o.touched = false := by
+  induction steps with
+  | nil => intro st cur; simp [threadRun, polledViews, pollAll]
+  | cons step rest ih =>
+    intro st cur
+    cases step with
+    | edit fv =>
+      by_cases hr : st.rate < slowRate
+      · simp only [threadRun, polledViews, hr, decide_true, if_true, pollAll, List.map_cons]
+        have := ih (poll parse fixed st fv).1 fv
+        refine ⟨?_, ?_⟩
+        · simp only [List.filter_cons, if_true]
+          rw [this.1]; rfl
+        · intro o ho hp
+          simp only [List.mem_cons] at ho
+          rcases ho with rfl | ho
+          · simp at hp
+          · exact this.2 o ho hp
+      · simp only [threadRun, polledViews, hr, decide_false, Bool.false_eq_true, if_false]
+        have := ih st fv
+        refine ⟨?_, ?_⟩
+        · simp only [List.filter_cons, Bool.false_eq_true, if_false]
+          exact this.1
+        · intro o ho hp
+          simp only [List.mem_cons] at ho
+          rcases ho with rfl | ho
+          · rfl
+          · exact this.2 o ho hp
+    | longWait =>
+      simp only [threadRun, polledViews, if_true, pollAll, List.map_cons]
+      have := ih (poll parse fixed st cur).1 cur
+      refine ⟨?_, ?_⟩
+      · simp only [List.filter_cons, if_true]
+        rw [this.1]; rfl
+      · intro o ho hp
+        simp only [List.mem_cons] at ho
+        rcases ho with rfl | ho
+        · simp at hp
+        · exact this.2 o ho hp
+
+
+/-- "stat, then read": whatever edit lands between the two looks, the history that follows
+satisfies the specification (the remembered mtime is the older one, the remembered text the newer) -/
+theorem specHistory2_model_statsFirst (fixed noMtime : Bool) (v1 v2 : FileView Text) (st0 : RState Text)
+    (h : List (FileView Text)) (hinit : initState2 parse true noMtime v1 v2 = some st0)
+    (hs : Safe fixed st0 h) (a : Action) :
+    specHistory2 parse noMtime v1 v2 (obsOf a st0) (modelPolls parse fixed st0 h) = none := by
+  unfold initState2 at hinit
+  simp only [if_true] at hinit
+  cases hv : v2.text? with
+  | none => simp [hv] at hinit
+  | some text =>
+    simp only [hv] at hinit
+    unfold initState at hinit
+    cases hp : parse text with
+    | none => simp [hp] at hinit
+    | some p =>
+      obtain ⟨c, r⟩ := p
+      simp only [hp, Option.some.injEq] at hinit
+      subst hinit
+      have hgo : goInit parse noMtime
+          (obsOf a { modified := if noMtime then none else v1.mtime?, source := text, active := c, rate := r.getD 0, alive := r.isSome })
+          (modelPolls parse fixed { modified := if noMtime then none else v1.mtime?, source := text, active := c, rate := r.getD 0, alive := r.isSome } h)
+          v1 v2 = none := by
+        simp only [goInit, hv]
+        exact specPolls_model parse fixed h _ _ 1 (by simp [Linked, obsOf]) hs
+      have hfit : fitsInit parse
+          (obsOf a { modified := if noMtime then none else v1.mtime?, source := text, active := c, rate := r.getD 0, alive := r.isSome : RState Text })
+          v2 = true := by
+        cases r <;> simp [fitsInit, hv, hp, obsOf]
+      unfold specHistory2
+      have hany : (List.filter (fun c_1 : FileView Text × FileView Text => fitsInit parse
+            (obsOf a { modified := if noMtime then none else v1.mtime?, source := text, active := c, rate := r.getD 0, alive := r.isSome : RState Text }) c_1.2)
+            [(v2, v2), (v1, v1), (v1, v2)]).any
+          (fun c_1 => (goInit parse noMtime
+            (obsOf a { modified := if noMtime then none else v1.mtime?, source := text, active := c, rate := r.getD 0, alive := r.isSome })
+            (modelPolls parse fixed { modified := if noMtime then none else v1.mtime?, source := text, active := c, rate := r.getD 0, alive := r.isSome } h)
+            c_1.1 c_1.2).isNone) = true := by
+        rw [List.any_eq_true]
+        refine ⟨(v1, v2), ?_, by simp [hgo]⟩
+        rw [List.mem_filter]
+        exact ⟨by simp, hfit⟩
+      simp only [hany, if_true]
 end
 
 /-! ### witnesses used by Properties/C15.lean -/
